@@ -41,6 +41,7 @@ class E1Run:
         self.scenario: Dict = {}
         self.inv: Dict = {}
         self.steps_since_reset = 0
+        self._ambushed = set()
         self.total_steps = 0
         self.episodes = 0
         self.monitors: List[Any] = []
@@ -201,6 +202,7 @@ class E1Run:
             info = exc_summary(e)
             raise Violation("C01", "reset-raises", f"env.reset(seed={seed}) raised {info['type']}: {info['text']}", sig=f"reset-raises:{info['type']}:{info['where']}", detail={"exc": info, "origin": self.origin})
         self.steps_since_reset = 0
+        self._ambushed = set()
         self.episodes += 1
         self.fault("F6_reset")
         if old_objs is not None:
@@ -307,6 +309,12 @@ class E1Run:
                 break
             x -= w
         env = self.env
+        if self.args.get("ambush"):
+            # a quiet defender that waits for a scripted agent to install an application and removes it before the
+            # agent's next action: interference placed inside a multi-action stage instead of uniformly in time
+            op = self.gen_ambush()
+            if op is not None:
+                return op
         if kind == "reset":
             return ["reset", r.choice([None, None, r.randint(0, 10**6)])]
         if kind == "fault":
@@ -322,6 +330,36 @@ class E1Run:
         if extra:
             op.append(extra)
         return op
+
+    def gen_ambush(self) -> Optional[List]:
+        r = self.ops_rng
+        env = self.env
+        net = env.game.simulation.network
+        if self.steps_since_reset >= env.game.options.max_episode_length:
+            return None
+        for name, ag in env.game.agents.items():
+            if name in env.game.rl_agents:
+                continue
+            acted = [i for i in ag.history if i.action != "do-nothing"]
+            if not acted:
+                continue
+            last = acted[-1]
+            key = (name, last.timestep)
+            if last.action == "node-application-install" and last.response.status == "success" and key not in self._ambushed:
+                node = net.get_node_by_hostname(last.parameters.get("node_name"))
+                app = last.parameters.get("application_name")
+                if node is not None and app in node.software_manager.software and r.random() < 0.6:
+                    self._ambushed.add(key)
+                    self.probe("fault_uninstall_of_application_just_installed_by_scripted_agent")
+                    return ["req", ["network", "node", node.config.hostname, "software_manager", "application", "uninstall", app], "F4_uninstall"]
+        quiet = [k for k, v in sorted(env.agent.action_manager.action_map.items()) if v[0] == "do-nothing"]
+        if quiet and r.random() < float(self.args.get("ambush")):
+            op = ["step", quiet[0]]
+            extra = {name: 0 for name, ag in env.game.rl_agents.items() if name != env._agent_name}
+            if extra:
+                op.append(extra)
+            return op
+        return None
 
     def gen_ops(self) -> List[List]:
         """One op, or a burst of requests inside one tick (count-pushing workloads of C02)."""
@@ -384,9 +422,42 @@ class E1Run:
             return None
         node = r.choice(nodes)
         hn = node.config.hostname
-        kinds = ["F1_power", "F2_nic", "F4_service", "F4_app", "F3_acl", "FS_file"]
+        kinds = ["F1_power", "F2_nic", "F4_service", "F4_app", "F3_acl", "FS_file"] + list(self.args.get("extra_faults") or [])
         k = r.choice(kinds)
         base = ["network", "node", hn]
+        if k == "F4_uninstall":
+            # what a defender's node-application-remove does: the application (and every request path under it) disappears
+            hosts = [n for n in nodes if getattr(n, "applications", None)]
+            if not hosts:
+                return None
+            node = r.choice(hosts)
+            # biased to land inside an operation in flight: the node a scripted agent has just acted on
+            recent, pairs, fresh = [], [], []
+            for ag in self.env.game.agents.values():
+                for item in [i for i in getattr(ag, "history", []) if i.action != "do-nothing"][-3:]:
+                    nn = (item.parameters or {}).get("node_name")
+                    if isinstance(nn, str):
+                        recent.append(nn)
+                        an = (item.parameters or {}).get("application_name")
+                        tn = net.get_node_by_hostname(nn)
+                        if isinstance(an, str) and tn is not None and an in getattr(tn.software_manager, "software", {}):
+                            pairs.append((nn, an))
+                            if item.action == "node-application-install":
+                                fresh.append((nn, an))
+            recent = sorted(n for n in set(recent) if getattr(net.get_node_by_hostname(n), "applications", None))
+            if recent and r.random() < 0.75:
+                node = net.get_node_by_hostname(r.choice(recent))
+            app = r.choice(sorted(a.name for a in node.applications.values()))
+            if pairs and r.random() < 0.7:
+                hn2, app = r.choice(sorted(set(pairs)))
+                node = net.get_node_by_hostname(hn2)
+                self.probe("fault_uninstall_of_application_in_use_by_scripted_agent")
+            if fresh and r.random() < 0.8:
+                # an application a scripted agent has itself just installed and is about to configure / run
+                hn2, app = r.choice(sorted(set(fresh)))
+                node = net.get_node_by_hostname(hn2)
+                self.probe("fault_uninstall_of_application_just_installed_by_scripted_agent")
+            return ["req", ["network", "node", node.config.hostname, "software_manager", "application", "uninstall", app], k]
         if k == "F1_power":
             return ["req", base + [r.choice(["shutdown", "startup", "reset", "shutdown"])], k]
         if k == "F2_nic" and node.network_interface:
